@@ -287,3 +287,17 @@ func (p *Program) HasFile(relpath string) bool {
 	f, _ := p.FileAST(relpath)
 	return f != nil
 }
+
+// MethodsOf lists the source-declared methods (value and pointer receivers) of a named type in a module package.
+func (p *Program) MethodsOf(pkg, recv string) []*ssa.Function {
+	var out []*ssa.Function
+	pre1, pre2 := "("+pkg+"."+recv+").", "(*"+pkg+"."+recv+")."
+	for _, f := range p.ModFuncs {
+		s := short(f.String())
+		if (strings.HasPrefix(s, pre1) || strings.HasPrefix(s, pre2)) && f.Parent() == nil && f.Synthetic == "" {
+			out = append(out, f)
+		}
+	}
+	sort.Slice(out, func(i, j int) bool { return out[i].Name() < out[j].Name() })
+	return out
+}
